@@ -183,9 +183,9 @@ Definition staged_send (c : cfg) (s : ust) (own : list place) (e : event) : Prop
   exists sid b j, nth_error own sid = Some (PBurst b) /\ nth_error (u_slabs s) sid = Some j /\
                   e = ESend sid (s_lease j) (send_dest c j) (tx_get (s_tx j) (s_txlen j)).
 
-Lemma flush_events_staged c s own b sids :
+Lemma group_events_staged c s own b sids :
   inv c s own -> (forall x, In x sids -> In (b, x) (u_burst s)) ->
-  forall e, In e (flush_events c s sids) -> staged_send c s own e.
+  forall e, In e (group_events c s sids) -> staged_send c s own e.
 Proof.
   intros Hinv Hin e He.
   assert (G : forall want, In e (flat_map (fun sid => match get_slab s sid with
@@ -196,7 +196,26 @@ Proof.
     destruct (Bool.eqb _ _); [|destruct H]. unfold send_event in H.
     destruct (s_txlen j) eqn:Et; [destruct H|]. destruct H as [<-|[]].
     exists sid, b, j. split; [apply (i_burst _ _ _ Hinv); auto|]. split; auto. now rewrite Et. }
-  unfold flush_events in He. destruct (c_batchtx c); [apply in_app_iff in He as [He|He]|]; eapply G; eauto.
+  unfold group_events in He. destruct (c_batchtx c); [apply in_app_iff in He as [He|He]|]; eapply G; eauto.
+Qed.
+
+(* the runs are a partition of the burst, in order *)
+Lemma runs_concat s : forall sids, concat (runs_by_sock s sids) = sids.
+Proof.
+  induction sids as [|sid r IH]; cbn [runs_by_sock]; auto.
+  destruct (runs_by_sock s r) as [|[|sid2 g] gs] eqn:E; cbn [concat] in *.
+  - subst r. reflexivity.
+  - rewrite <- IH. reflexivity.
+  - destruct (job_sock s sid =? job_sock s sid2)%N; cbn [concat app]; rewrite <- IH; reflexivity.
+Qed.
+
+Lemma flush_events_staged c s own b sids :
+  inv c s own -> (forall x, In x sids -> In (b, x) (u_burst s)) ->
+  forall e, In e (flush_events c s sids) -> staged_send c s own e.
+Proof.
+  intros Hinv Hin e He. unfold flush_events in He. apply in_flat_map in He as (g & Hg & He).
+  eapply (group_events_staged c s own b g); eauto.
+  intros x Hx. apply Hin. rewrite <- (runs_concat s sids). apply in_concat. exists g. auto.
 Qed.
 
 Lemma send_dest_raddr c j log sid : filled log sid j -> send_dest c j = s_raddr j.
